@@ -28,8 +28,23 @@ if VERIF not in sys.path:
 
 
 def _load_variants():
+    """Hand-written variants plus one M-variant per confirmed seeded change under /verif/seeded (applied as a patch)."""
+    import json
     from selftest import variants
-    return variants.VARIANTS
+    V = {k: list(v) for k, v in variants.VARIANTS.items()}
+    root = os.path.join(VERIF, "seeded")
+    if os.path.isdir(root):
+        for d in sorted(os.listdir(root)):
+            mp = os.path.join(root, d, "meta.json")
+            if not os.path.exists(mp):
+                continue
+            meta = json.load(open(mp))
+            det = meta.get("detected_by")
+            if not det:
+                continue  # recorded as not detected (see DESIGN.md 10.6): not an expectation of the self-test
+            V.setdefault(meta["property"], []).append({"id": "seeded:" + d, "kind": "M", "patch": os.path.join(root, d, "patch.diff"),
+                                                       "expect": det[0] if det else ""})
+    return V
 
 
 def _apply(scratch: str, edits) -> str:
@@ -59,8 +74,13 @@ def run_variant(args):
     try:
         shutil.copytree(os.path.join(repo, "gcmpy"), os.path.join(tmp, "gcmpy"),
                         ignore=shutil.ignore_patterns("__pycache__"))
-        edits = v["edits"] if "edits" in v else [(v["file"], v["old"], v["new"])]
-        skip = _apply(tmp, edits)
+        if "patch" in v:
+            import subprocess
+            r = subprocess.run(["git", "apply", "--unsafe-paths", "--directory", tmp, v["patch"]], capture_output=True, text=True, cwd=tmp)
+            skip = "" if r.returncode == 0 else "seeded patch does not apply to the current tree"
+        else:
+            edits = v["edits"] if "edits" in v else [(v["file"], v["old"], v["new"])]
+            skip = _apply(tmp, edits)
         if skip:
             return {"id": v["id"], "kind": v["kind"], "outcome": "skipped", "detail": skip}
         buf = io.StringIO()
